@@ -144,6 +144,7 @@ pub fn guard<R>(f: impl FnOnce() -> Result<R, Fail>) -> Result<R, Fail> {
 
 pub struct InflightEntry {
     pub sub: String,
+    pub limit_factor: u32,
     pub since: Instant,
     pub case: Box<dyn Fn() -> Value + Send>,
 }
@@ -152,9 +153,9 @@ static INFLIGHT_ID: std::sync::atomic::AtomicU64 = std::sync::atomic::AtomicU64:
 
 pub struct Inflight(u64);
 impl Inflight {
-    pub fn enter(sub: &str, case: Box<dyn Fn() -> Value + Send>) -> Inflight {
+    pub fn enter(sub: &str, limit_factor: u32, case: Box<dyn Fn() -> Value + Send>) -> Inflight {
         let id = INFLIGHT_ID.fetch_add(1, Ordering::Relaxed);
-        INFLIGHT.lock().unwrap().insert(id, InflightEntry { sub: sub.to_string(), since: Instant::now(), case });
+        INFLIGHT.lock().unwrap().insert(id, InflightEntry { sub: sub.to_string(), limit_factor: limit_factor.max(1), since: Instant::now(), case });
         Inflight(id)
     }
 }
@@ -164,13 +165,14 @@ impl Drop for Inflight {
     }
 }
 
-/// The oldest case in flight that has exceeded `limit`: (sub, serialized case, seconds running).
-pub fn overdue_case(limit: std::time::Duration) -> Option<(String, Value, f64)> {
+/// The oldest case in flight that has exceeded its limit (`limit` x the sub-check's factor):
+/// (sub, serialized case, seconds running, the limit that applied).
+pub fn overdue_case(limit: std::time::Duration) -> Option<(String, Value, f64, std::time::Duration)> {
     let g = INFLIGHT.lock().unwrap();
     g.values()
-        .filter(|e| e.since.elapsed() > limit)
+        .filter(|e| e.since.elapsed() > limit * e.limit_factor)
         .max_by(|a, b| a.since.elapsed().cmp(&b.since.elapsed()))
-        .map(|e| (e.sub.clone(), (e.case)(), e.since.elapsed().as_secs_f64()))
+        .map(|e| (e.sub.clone(), (e.case)(), e.since.elapsed().as_secs_f64(), limit * e.limit_factor))
 }
 
 /// A sub-check of a property (object safe so that a property is a list of them).
@@ -192,6 +194,9 @@ where
     pub cases_quick: u64,
     pub cases_thorough: u64,
     pub max_shrink_iters: u32,
+    /// multiplies the per-case non-termination limit (1 for ordinary sub-checks; > 1 where single cases are
+    /// expensive by design)
+    pub limit_factor: u32,
     pub strategy: MK,
     pub check: F,
 }
@@ -278,7 +283,7 @@ where
                         let mut info = CaseInfo::default();
                         let inflight = {
                             let c = case.clone();
-                            Inflight::enter(self.name, Box::new(move || serde_json::to_value(&c).unwrap_or(Value::Null)))
+                            Inflight::enter(self.name, self.limit_factor, Box::new(move || serde_json::to_value(&c).unwrap_or(Value::Null)))
                         };
                         let r = guard(|| (self.check)(&case, &mut info));
                         drop(inflight);
